@@ -481,6 +481,7 @@ func runcacheCmd(args []string) error {
 		"a(f0) b(f0,f1) c()":               {{name: 0, lits: []int{0}}, {name: 1, lits: []int{0, 1}}, {name: 2}},
 		"a(f0,*.txt) b(*.dat,g0.*)":        {{name: 0, lits: []int{0}, globs: []int{1}}, {name: 1, globs: []int{0, 2}}}, // the same file named twice
 		"a(*.txt) b(a) c(b,g0.*,f1)":       {{name: 0, globs: []int{1}}, {name: 1, deps: []int{0}}, {name: 2, deps: []int{1}, globs: []int{2}, lits: []int{1}}},
+		"a(f0,*.dat) b(a,f1) c(b)":         {{name: 0, lits: []int{0}, globs: []int{0}}, {name: 1, deps: []int{0}, lits: []int{1}}, {name: 2, deps: []int{1}}}, // a literal + a glob two levels below the request
 		"a(*.dat,*.txt) b(a,f0) c(a,b,f0)": {{name: 0, globs: []int{0, 1}}, {name: 1, deps: []int{0}, lits: []int{0}}, {name: 2, deps: []int{0, 1}, lits: []int{0}}},
 	}
 	shapeNames := make([]string, 0, len(shapes))
